@@ -30,6 +30,17 @@ def K3_iota2_field_reversal():
     return bool(abs(a.iota2 - b.iota2) > 1e-6 * abs(a.iota2))
 
 
+def K4_iota2_origin_nonsymmetric():
+    """non-symmetric (trapezoid) branch of calculate_shear: the same curve described from another grid-aligned origin"""
+    import oracles
+    kw = dict(rc=[1, 0.048], zs=[0, -0.033], nfp=3, etabar=-1.05, sigma0=0.4, B0=1.6, sG=-1, spsi=-1, B2s=0.07, p2=-4e5, B2c=-0.47,
+              I2=-0.77, order='r3', nphi=51)
+    a = Qsc(**kw); a.calculate_shear()
+    b = Qsc(**oracles.shifted_kwargs(kw, a, 25)); b.calculate_shear()
+    # both descriptions agree on everything else (iota to round-off); iota2 differs at O(1) at every resolution
+    return bool(abs(a.iota - b.iota) < 1e-9 and abs(a.iota2 - b.iota2) > 0.05 * abs(a.iota2))
+
+
 # ---- regressions for repaired defects (must NOT reproduce)
 def F1_plot_mutates_sentinels():
     import matplotlib; matplotlib.use('Agg'); import matplotlib.pyplot as plt
